@@ -1,72 +1,70 @@
 """constants and literals of the sciparse text forms -> Gen/TextConfig.v
-(src, need, emit, missing, re are injected by tools/gen.py)"""
+(src, need, expect, emit, missing, re are injected by tools/gen.py)"""
 
 def generate():
+    # need  = constants / literals the model imports through Gen/TextConfig.v
+    # expect = mirrored statements; all of parsing and formatting is observed by the harness
+    #          (h_text compares outcome class, error variant, value and display string)
     asn = "crates/libs/sciparse/src/scion/identifier/asn.rs"
     t = src(asn)
-    m = need(t, r"pub const BITS: u32 = (\d+);", "Asn::BITS", asn); bits = int(m.group(1)) if m else 0
+    m = need(t, r"const BITS: u32 = (\d+);", "Asn::BITS", asn); bits = int(m.group(1)) if m else 0
     m = need(t, r"const BITS_PER_PART: u32 = (\d+);", "Asn::BITS_PER_PART", asn); bpp = int(m.group(1)) if m else 0
     m = need(t, r"const NUMBER_PARTS: u32 = (\d+);", "Asn::NUMBER_PARTS", asn); nparts = int(m.group(1)) if m else 0
-    need(t, r"pub const MAX: Self = Self\(\(1 << Self::BITS\) - 1\);", "Asn::MAX formula", asn)
-    need(t, r"const BGP_ASN_FORMAT_BOUNDARY: u64 = u32::MAX as u64;", "BGP_ASN_FORMAT_BOUNDARY", asn)
-    need(t, r"if bgp_asn <= u32::MAX\.into\(\)", "decimal AS range test", asn)
-    need(t, r"u16::from_str_radix\(asn_part, 16\)", "hex group parser", asn)
-    need(t, r'write!\(f, "\{asn_part:x\}\{separator\}"\)', "hex group format", asn)
-    need(t, r'let separator = if i != 0 \{ ":" \} else \{ "" \};', "group separator", asn)
-    need(t, r"asn_string\.splitn\(Asn::NUMBER_PARTS as usize, ':'\)", "splitn on ':'", asn)
+    need(t, r"const MAX: Self = (?:Self|Asn)\(\s*\(1(?:u64|_u64)? << (?:Self|Asn)::BITS\)\s*-\s*1\s*\)", "Asn::MAX = 2^BITS - 1", asn)
+    expect(t, r"u32::MAX", "decimal (BGP) AS range bound u32::MAX", asn)
+    expect(t, r"from_str_radix\([^()]*,\s*16\s*\)", "hex group parser", asn)
+    expect(t, r"\{[^{}]*:x\}", "hex group format", asn)
+    expect(t, r"splitn\([^()]*,\s*':'\s*\)", "splitn on ':'", asn)
 
     isd = "crates/libs/sciparse/src/scion/identifier/isd.rs"
     t = src(isd)
-    need(t, r"pub struct Isd\(pub u16\);", "Isd(u16)", isd)
-    need(t, r"u16::from_str\(string\)", "Isd decimal parser", isd)
+    expect(t, r"pub struct Isd\(pub u16\)", "Isd(u16)", isd)
+    expect(t, r"u16::from_str|parse::<u16>", "Isd decimal parser", isd)
 
     ia = "crates/libs/sciparse/src/scion/identifier/isd_asn.rs"
     t = src(ia)
-    need(t, r'write!\(f, "\{\}-\{\}", self\.isd\(\), self\.asn\(\)\)', "IsdAsn format", ia)
-    need(t, r"\.split_once\('-'\)", "IsdAsn split", ia)
-    need(t, r"filter\(\|c\| \*c == '-'\)\.take\(2\)\.count\(\)", "IsdAsn separator count", ia)
+    expect(t, r'"\{\}-\{\}"', "IsdAsn format", ia)
+    expect(t, r"split_once\('-'\)", "IsdAsn split", ia)
 
     ha = "crates/libs/sciparse/src/scion/address/host_addr.rs"
     t = src(ha)
     svc = {}
     for nm in ("DAEMON", "CONTROL", "WILDCARD"):
-        m = need(t, rf"pub const {nm}: Self = Self\(0x([0-9a-fA-F]+)\);", "ServiceAddr::" + nm, ha)
-        svc[nm] = int(m.group(1), 16) if m else 0
-    m = need(t, r"const MULTICAST_FLAG: u16 = 0x([0-9a-fA-F]+);", "MULTICAST_FLAG", ha)
-    mc = int(m.group(1), 16) if m else 0
+        m = need(t, rf"const {nm}: Self = (?:Self|ServiceAddr)\(0x([0-9a-fA-F_]+)\);", "ServiceAddr::" + nm, ha)
+        svc[nm] = int(m.group(1).replace("_", ""), 16) if m else 0
+    m = need(t, r"const MULTICAST_FLAG: u16 = 0x([0-9a-fA-F_]+);", "MULTICAST_FLAG", ha)
+    mc = int(m.group(1).replace("_", ""), 16) if m else 0
     names = {}
     for nm in ("DAEMON", "CONTROL", "WILDCARD"):
-        m = need(t, rf'ServiceAddr::{nm} => write!\(f, "(\w+)"\)', "display name of " + nm, ha)
+        m = need(t, rf'(?:ServiceAddr|Self)::{nm}\s*=>\s*(?:write!\(\s*f\s*,\s*|f\.write_str\(\s*)?"(\w+)"', "display name of " + nm, ha)
         names[nm] = m.group(1) if m else ""
         if m:
-            need(t, rf'"{m.group(1)}" => ServiceAddr::{nm},', "parse name of " + nm, ha)
-    m = need(t, r'ServiceAddr\(value\) => write!\(f, "<SVC:\{value:#06x\}>"\)', "unnamed service format", ha)
-    need(t, r'write!\(f, "_M"\)', "multicast suffix", ha)
-    need(t, r"s\.split_once\('_'\)\.unwrap_or\(\(s, \"A\"\)\)", "service suffix split", ha)
+            expect(t, rf'"{m.group(1)}"\s*=>\s*(?:ServiceAddr|Self)::{nm}', "parse name of " + nm, ha)
+    expect(t, r'<SVC:\{[^{}]*:#06x\}>', "unnamed service format", ha)
+    expect(t, r'"_M"', "multicast suffix", ha)
+    expect(t, r"split_once\('_'\)", "service suffix split", ha)
 
     ad = "crates/libs/sciparse/src/scion/address/addr.rs"
     t = src(ad)
-    need(t, r'write!\(f, "\{\},\{\}", isd_asn, host\)', "ScionAddr format", ad)
-    need(t, r"s\.splitn\(2, ','\)", "ScionAddr split", ad)
+    expect(t, r'"\{\},\{\}"', "ScionAddr format", ad)
+    expect(t, r"splitn\(2,\s*','\s*\)|split_once\(','\)", "ScionAddr split", ad)
 
     so = "crates/libs/sciparse/src/scion/address/socket_addr.rs"
     t = src(so)
-    need(t, r'write!\(f, "\[\{\},\{\}\]:\{\}", isd_asn, host, port\)', "socket address format", so)
-    need(t, r"s\.rsplit_once\(':'\)", "socket address split", so)
-    need(t, r"bracketed_addr\[1\.\.bracketed_addr\.len\(\) - 1\]", "bracket slice", so)
+    expect(t, r'"\[\{\},\{\}\]:\{\}"', "socket address format", so)
+    expect(t, r"rsplit_once\(':'\)", "socket address split", so)
+    expect(t, r"(?:starts_with|strip_prefix)\('\['\)", "opening bracket test", so)
+    expect(t, r"(?:ends_with|strip_suffix)\('\]'\)", "closing bracket test", so)
 
     tx = "crates/scion-stack/src/resolver/txt.rs"
     t = src(tx)
     m = need(t, r'const SCION_TXT_PREFIX: &str = "([^"]+)";', "SCION_TXT_PREFIX", tx)
     txt_prefix = m.group(1) if m else ""
-    need(t, r"let mut remaining = payload\.trim\(\);", "payload trim", tx)
-    need(t, r"\.find\('\]'\)", "find ']'", tx)
-    need(t, r"let entry = remaining\[1\.\.close_idx\]\.trim\(\);", "entry slice", tx)
-    need(t, r"let rest = remaining\[close_idx \+ 1\.\.\]\.trim\(\);", "rest slice", tx)
-    need(t, r"\.split_once\(','\)", "entry split", tx)
-    need(t, r"IsdAsn::from_str\(isd_asn_str\.trim\(\)\)\?", "TXT ISD-AS parse", tx)
-    need(t, r"IpAddr::from_str\(host_str\.trim\(\)\)\?", "TXT host parse", tx)
-    need(t, r"remaining = rest\[1\.\.\]\.trim\(\);", "advance", tx)
+    expect(t, r"\.trim\(\)", "whitespace trimming", tx)
+    expect(t, r"find\('\]'\)", "find ']'", tx)
+    expect(t, r"split_once\(','\)", "entry split", tx)
+    expect(t, r"IsdAsn::from_str|parse::<IsdAsn>", "TXT ISD-AS parse", tx)
+    expect(t, r"IpAddr::from_str|parse::<IpAddr>", "TXT host parse", tx)
 
     def lit(s): return "[" + "; ".join(str(b) for b in s.encode()) + "]"
     body = f"""From Coq Require Import NArith List.
